@@ -169,6 +169,40 @@ MsgLatticeOK ==
     /\ (pr.rel = "diffByte" => Len(pr.m1) = Len(pr.m2) /\ Cardinality({i \in 1..Len(pr.m1) : pr.m1[i] # pr.m2[i]}) = 1)
 MsgLensCovered == MsgLens \subseteq ({Len(pr.m1) : pr \in MsgPairs} \cup {Len(pr.m2) : pr \in MsgPairs})
 
+(* -------------------------------------------------------------------------
+   The degenerate corner: malformed public key x degenerate signature.  A byte
+   string that is not the exact encoding of a group element parses to NO key, and
+   verification with no key is false for every signature -- the identity included
+   (e(identity, g2) = 1 = e(H(m), "nothing") must not be how a parser failure ends).
+   Every parsing entry point of keys and signatures is a dimension. *)
+KeyClasses == {"exact", "empty", "nil", "truncated", "overlong", "nonreduced", "offcurve", "identity"}
+SigClasses == {"honest", "identity", "truncated", "garbage", "empty"}
+KeyEntries == {"ByteToPublicKey", "Deserialize", "SetHexString", "UnmarshalJSON"}
+SigEntries == {"DeserializeSign", "Deserialize", "SetHexString"}
+
+KeyCase(kc, arg, ke, sc, se) == [keyClass |-> kc, arg |-> arg, keyEntry |-> ke, sigClass |-> sc, sigEntry |-> se]
+
+KeyArgs(kc) == CASE kc = "truncated" -> {1, 64, 127}
+                 [] kc = "overlong"  -> {1, 32}
+                 [] kc = "nonreduced" -> 0..3
+                 [] OTHER -> {0}
+
+KeySigCases ==
+  {KeyCase(kc, a, ke, sc, se) : kc \in KeyClasses, a \in 0..127, ke \in KeyEntries, sc \in SigClasses, se \in SigEntries}
+KeySigLattice == {kc \in KeySigCases : kc.arg \in KeyArgs(kc.keyClass)}
+
+(* does the presented key string denote a key at all, and which *)
+KeyParses(kc) == kc.keyClass \in {"exact", "overlong", "nonreduced", "identity"}   \* a group element is behind it
+KeyIsHonest(kc) == kc.keyClass \in {"exact", "overlong", "nonreduced"}
+(* not decided by the property (see Judged): a non-canonical encoding of the right key with the right
+   signature; the identity key (secret key 0) with the identity signature (its signature) *)
+KeySigJudged(kc) ==
+  /\ ~(kc.keyClass \in {"overlong", "nonreduced"} /\ kc.sigClass = "honest")
+  /\ ~(kc.keyClass = "identity" /\ kc.sigClass = "identity")
+ExpectedKeySig(kc) == kc.keyClass = "exact" /\ kc.sigClass = "honest"
+
+ASSUME \A kc \in KeySigLattice : ExpectedKeySig(kc) => (KeyParses(kc) /\ KeyIsHonest(kc))
+
 VARIABLE c
 vars == <<c>>
 
